@@ -62,7 +62,7 @@ class Obligation:
     def to_json(self):
         return {'id': self.oid, 'kind': self.kind, 'where': self.where, 'path': self.path,
                 'status': self.status, 'backend': self.backend, 'time_s': round(self.time_s, 4),
-                'smt_bytes': self.smt_size, 'model': self.model}
+                'smt_bytes': self.smt_size, 'model': self.model, 'meta': self.meta if isinstance(self.meta, dict) else None}
 
 
 class Ctx:
@@ -426,7 +426,17 @@ def discharge_one(ob, budget, prepared):
 
 def _fetch_model(ob, text, budget, getval):
     """Second run asking for witness values (only after a `sat`)."""
-    q = text.replace('(check-sat)', '(check-sat)\n' + _get_value_cmd(ob) + '(get-model)\n')
+    # witness terms that do not occur in the obligation (e.g. an argument the function never reads) have no declaration in the query:
+    # they are unconstrained, so they are declared here and the solver picks any value
+    extra = ''
+    if ob.witness:
+        for t in ob.witness.values():
+            if z3.is_expr(t) and z3.is_const(t) and t.decl().kind() == z3.Z3_OP_UNINTERPRETED:
+                nm = t.decl().name()
+                if ('(declare-fun %s ' % nm) not in text and ('(declare-fun |%s| ' % nm) not in text and ('(declare-const %s ' % nm) not in text:
+                    qn = nm if re.fullmatch(r'[A-Za-z_][A-Za-z0-9_.!]*', nm) else '|%s|' % nm
+                    extra += '(declare-fun %s () %s)\n' % (qn, t.sort().sexpr())
+    q = text.replace('(check-sat)', extra + '(check-sat)\n' + _get_value_cmd(ob) + '(get-model)\n')
     out, _ = _run([Z3_BIN, '-in', '-smt2', 'model.completion=true', '-T:%d' % max(1, int(budget))],
                   q, budget + 2)
     ob.solver_output = out[-20000:]
